@@ -1,0 +1,19 @@
+//! Verification-only facade (compiled only with `--cfg libp2p_verif`; forwarding only).
+
+use std::{future::Future, io, time::Duration};
+
+use futures::io::{AsyncRead, AsyncWrite};
+
+/// Builds the crate-private `CopyFuture` that relays bytes between the two ends of a circuit.
+pub fn copy_future<S, D>(
+    src: S,
+    dst: D,
+    max_circuit_duration: Duration,
+    max_circuit_bytes: u64,
+) -> impl Future<Output = io::Result<()>> + Unpin
+where
+    S: AsyncRead + AsyncWrite + Unpin,
+    D: AsyncRead + AsyncWrite + Unpin,
+{
+    crate::copy_future::CopyFuture::new(src, dst, max_circuit_duration, max_circuit_bytes)
+}
